@@ -304,6 +304,71 @@ func (d *driver) startResync() {
 	d.emitOp(oi, M{"ev": "StartResync", "op": op.ID})
 }
 
+// startSyncAll starts the periodic pod-ip sync (syncPodIPsIntoDB): one listing of the informer cache, then syncPodIP for every
+// running pod of that snapshot, whatever has happened to the pod in the meantime.
+func (d *driver) startSyncAll() {
+	plugin := d.w.Plugin
+	op, err := d.w.S.Start("syncall", func() M {
+		plugin.VerifSyncPodIPs()
+		return M{"ok": true, "err": ""}
+	})
+	oi := d.register("syncall", "", "", op, err)
+	d.emitOp(oi, M{"ev": "StartSyncAll", "op": op.ID})
+}
+
+// staleSync is the directed form of what the periodic pod-ip sync can meet: it lists while the pod runs, then the pod is deleted,
+// its events are handled and its IP released or reserved (and, sometimes, a successor is created and scheduled) before the
+// sync reaches the pod's entry of its snapshot. The sync operation is left to the random scheduler afterwards.
+func (d *driver) staleSync(name string) {
+	if d.liveOf("syncall", "") {
+		return
+	}
+	for guard := 0; len(d.w.Pevq) > 0 && guard < 50; guard++ {
+		d.deliverPod()
+	}
+	// (the handler of the "running" update is an operation of its own: let it finish)
+	for guard := 0; d.liveOf("syncpod", "") && guard < 50 && !d.hung; guard++ {
+		d.deliverPod()
+	}
+	if lv, ok := d.w.ListerPods()[name]; !ok || lv.Phase != "Running" || d.liveCount() >= d.sc.MaxOps || d.liveOf("syncall", "") {
+		return
+	}
+	d.startSyncAll()
+	sa := d.lastOp()
+	if sa == nil || sa.typ != "syncall" || sa.op.Done {
+		return
+	}
+	d.step(sa, 0, 0) // the listing
+	if d.hung || !d.w.DeletePod(name) {
+		return
+	}
+	delete(d.filtered, name)
+	d.emit(M{"ev": "DeletePod", "pod": name})
+	for guard := 0; guard < 100 && !d.hung && d.w.Alive; guard++ {
+		if len(d.w.Pevq) > 0 {
+			d.deliverPod()
+			continue
+		}
+		if len(d.w.Work) > 0 && d.liveCount() < d.sc.MaxOps {
+			d.startUnbind()
+			d.runAlone(d.lastOp())
+			continue
+		}
+		break
+	}
+	if d.rng.Intn(2) == 0 && d.sc.Feat["cycle"] && d.inc[name] < d.sc.MaxInc && d.liveCount() < d.sc.MaxOps {
+		for _, sp := range d.sc.Specs {
+			if sp.Name == name {
+				if pv, err := d.w.CreatePod(sp); err == nil {
+					d.inc[name]++
+					d.emit(M{"ev": "CreatePod", "pod": name, "uid": pv.UID, "ranges": pv.Ranges})
+					d.filterThenBind(name)
+				}
+			}
+		}
+	}
+}
+
 func (d *driver) startSyncPod(pod *corev1.Pod, old *corev1.Pod) *opInfo {
 	plugin := d.w.Plugin
 	op, err := d.w.S.Start("syncpod", func() M {
@@ -585,6 +650,15 @@ func (d *driver) envAction() bool {
 	var wts []int
 	add := func(wt int, a act) { acts = append(acts, a); wts = append(wts, wt) }
 	truth := w.TruthPods()
+	// directed: as soon as a pod with a reserving policy is bound, its deletion is lost in a restart (once per trace)
+	if d.sc.Feat["lostdelete"] && d.budget.crashes > 0 && w.Alive && d.rng.Intn(2) == 0 {
+		for _, s := range d.sc.Specs {
+			if v, ok := truth[s.Name]; ok && v.Node != "" && v.Phase != "Done" && s.Kind != "dp" && (s.Policy != 0 || s.Pool != "") {
+				d.lostDelete(s.Name)
+				return true
+			}
+		}
+	}
 	for _, s := range d.sc.Specs {
 		s := s
 		v, exists := truth[s.Name]
@@ -703,7 +777,15 @@ func (d *driver) envAction() bool {
 			}
 		})
 	}
-	if d.sc.Feat["crash"] && d.budget.crashes > 0 && w.Alive {
+	if d.sc.Feat["crash"] && d.sc.Feat["resync"] && d.budget.crashes > 0 && w.Alive {
+		for _, s := range d.sc.Specs {
+			name := s.Name
+			if v, ok := truth[name]; ok && v.Node != "" && v.Phase != "Done" && (s.Policy != 0 || s.Pool != "") {
+				add(8, func() { d.lostDelete(name) })
+			}
+		}
+	}
+	if d.sc.Feat["crash"] && !d.sc.Feat["lostdelete"] && d.budget.crashes > 0 && w.Alive { // (lostdelete keeps the one crash for itself)
 		add(1, func() {
 			w.Crash()
 			d.budget.crashes--
@@ -986,6 +1068,15 @@ func (d *driver) startAction() bool {
 	if d.sc.Feat["resync"] && !d.liveOf("resync", "") && len(env.ProjectStore(w.Store)) > 0 {
 		add(1, d.startResync)
 	}
+	if d.sc.Feat["syncall"] && !d.liveOf("syncall", "") && len(w.ListerPods()) > 0 {
+		add(3, d.startSyncAll)
+		for _, sp := range d.sc.Specs {
+			name := sp.Name
+			if v, ok := truth[name]; ok && v.Phase == "Running" && v.Node != "" {
+				add(4, func() { d.staleSync(name) })
+			}
+		}
+	}
 	if d.sc.Feat["apirelease"] && w.Alive {
 		mem, _, _ := env.ProjectMem(w.Inner)
 		var cands []string
@@ -1043,7 +1134,7 @@ func (d *driver) stepAction() bool {
 		if d.budget.faults > 0 && d.rng.Intn(5) == 0 {
 			fault = 1 + d.rng.Intn(n)
 			d.budget.faults--
-		} else if d.sc.Feat["crash"] && d.budget.crashes > 0 && d.rng.Intn(25) == 0 && (name == "AllocateMulti" || name == "ReserveIP" || name == "ReleaseIPs" || name == "AllocateInSubnetWithKey" || name == "UpdateAttr") {
+		} else if d.sc.Feat["crash"] && !d.sc.Feat["lostdelete"] && d.budget.crashes > 0 && d.rng.Intn(25) == 0 && (name == "AllocateMulti" || name == "ReserveIP" || name == "ReleaseIPs" || name == "AllocateInSubnetWithKey" || name == "UpdateAttr") {
 			crashAt = 2
 		}
 	}
@@ -1052,6 +1143,25 @@ func (d *driver) stepAction() bool {
 }
 
 // ---------------------------------------------------------------- a trace
+
+// lostDelete: a bound pod is deleted while the process is going down, so nobody ever handles the event; after the restart only
+// resync can notice. Two passes run alone: the first may have to unassign at the provider and clear node and uid, the second
+// sees what the first left behind (C03: the release policy must still decide).
+func (d *driver) lostDelete(name string) {
+	if d.budget.crashes <= 0 || !d.w.Alive || !d.w.DeletePod(name) {
+		return
+	}
+	delete(d.filtered, name)
+	d.emit(M{"ev": "DeletePod", "pod": name})
+	d.w.Crash()
+	d.budget.crashes--
+	d.emit(M{"ev": "Crash"})
+	d.restart()
+	for i := 0; i < 2 && !d.hung && d.w.Alive; i++ {
+		d.startResync()
+		d.runAlone(d.lastOp())
+	}
+}
 
 func (d *driver) restart() {
 	d.ops = map[int]*opInfo{}
